@@ -3,7 +3,7 @@ PROPS = {}
 PROPS["C19"] = {
     "level": "exploration",
     "exhaustive": {"quick": True, "thorough": True},
-    "rule": "exhaustive enumeration of 32 capability tuples (OS in {Linux,Windows,Mac,Any} x network x direct-FS x running-system) x every plugin of the three registries, plus every registry key, group name and plugin name, plus every ordered triple of detectors that require extractors (repeats allowed, with and without a pre-enabled required extractor) through EnableRequiredExtractors, plus every ordered pair of capability tuples applied one after the other to one caller-owned list per registry (the list must be unchanged and the second result exact); one evaluation per (check, tuple, plugin/name); non-trivial = the plugin's requirement is non-empty (filter checks) or the check concerns name resolution; distinct by the case JSON",
+    "rule": "exhaustive enumeration of 32 capability tuples (OS in {Linux,Windows,Mac,Any} x network x direct-FS x running-system) x every plugin of the three registries, plus every registry key, group name and plugin name, plus every ordered triple of detectors that require extractors (repeats allowed, with and without a pre-enabled required extractor) through EnableRequiredExtractors, plus every ordered pair of capability tuples applied one after the other to one caller-owned list per registry (the list must be unchanged and the second result exact); one evaluation per (check, tuple, plugin/name); non-trivial = the plugin's requirement is non-empty (filter checks) or the check concerns name resolution; distinct by the case JSON (10) for every extractor that a built-in detector declares as required, a scan configured with nothing but a stub detector declaring it over an empty directory must succeed and report a status entry for that extractor (class required_extractor_runs_in_scan).",
     "assumptions": ["plugin.Capabilities values OSUnix / NetworkAny are requirement-only values and are not generated as environment capabilities",
                     "group names are the ones hard-coded in the three list packages at the pinned commit; their expected members come from the exported group maps"],
     "engine": "enumeration",
